@@ -78,6 +78,7 @@ type workerReport struct {
 	Hang       json.RawMessage   `json:"hang"`
 	WallS      float64           `json:"wall_s"`
 	DetHash    string            `json:"det_hash"`
+	Digests    [][2]uint64       `json:"digests"`
 	RaceRep    []string          `json:"-"`
 }
 
@@ -268,6 +269,47 @@ func main() {
 		return append(os.Environ(), "GOMAXPROCS="+strconv.Itoa(gmp), "GORACE=halt_on_error=0 exitcode=0 history_size=3")
 	}
 
+	// replay of a fresh-versus-warm finding: re-execute both and compare
+	if *replay != "" {
+		var hf struct {
+			Oracle  string `json:"oracle"`
+			Variant string `json:"variant"`
+			Seed    int64  `json:"seed"`
+			Worker  int    `json:"worker"`
+			Index   int    `json:"index"`
+			Tier    string `json:"tier"`
+		}
+		if b, err := os.ReadFile(*replay); err == nil && json.Unmarshal(b, &hf) == nil && hf.Oracle == "fresh-vs-warm" {
+			run1 := func(start, evals, every int, tag string) (uint64, bool) {
+				out := filepath.Join(scratch, "hist-replay-"+tag+".json")
+				cmd := exec.Command(workerBin, "-prop", id, "-sites", sitesPath, "-seed", strconv.FormatUint(uint64(hf.Seed), 10), "-worker", strconv.Itoa(hf.Worker),
+					"-start", strconv.Itoa(start), "-evals", strconv.Itoa(evals), "-digestevery", strconv.Itoa(every), "-variant", hf.Variant, "-tier", hf.Tier, "-out", out, "-maxfail", "1000000")
+				cmd.Env = workerEnv(1)
+				cmd.Run()
+				var r workerReport
+				if b, err := os.ReadFile(out); err == nil && json.Unmarshal(b, &r) == nil {
+					for _, d := range r.Digests {
+						if int(d[0]) == hf.Index {
+							return d[1], true
+						}
+					}
+				}
+				return 0, false
+			}
+			warm, ok1 := run1(0, hf.Index+1, hf.Index, "warm")
+			fresh, ok2 := run1(hf.Index, 1, 1, "fresh")
+			if !ok1 || !ok2 {
+				die(2, "could not re-execute the evaluations of the replay")
+			}
+			fmt.Printf("REPLAY: evaluation %d after %d earlier evaluations in one process: digest %x; as the first evaluation of a fresh process: digest %x\n", hf.Index, hf.Index, warm, fresh)
+			if warm != fresh {
+				fmt.Printf("VIOLATION property=%s replay=%s\n", id, *replay)
+				exit(1)
+			}
+			fmt.Println("REPLAY: no violation (the property held on this replay)")
+			exit(0)
+		}
+	}
 	// replay mode
 	if *replay != "" {
 		cmd := exec.Command(workerBin, "-prop", id, "-sites", sitesPath, "-replay", *replay, "-tier", *tier)
@@ -511,6 +553,100 @@ func main() {
 	exploreWall := time.Since(start).Seconds() - spent
 	fmt.Printf("explored: %d evaluations, %d simulated runs, %d kernel steps, %d distinct non-trivial, %.1fs\n", agg.Evals, agg.Runs, agg.Steps, len(sigs), exploreWall)
 
+	// 4b. fresh-versus-warm: a sample of evaluations that ran late in a long-lived worker is
+	// re-executed as the only evaluation of a fresh process; the digests of everything the code under
+	// test produced must be equal ("the result does not depend on how many times the run is repeated" -
+	// state carried in package-level variables of the code under test shows up here).
+	type histSample struct {
+		lane   lane
+		w, idx int
+		digest uint64
+	}
+	var hist []histSample
+	for i, r := range reports {
+		if r == nil || r.RaceLane {
+			continue
+		}
+		for _, d := range r.Digests {
+			if d[0] > 0 {
+				hist = append(hist, histSample{jobs[i].lane, jobs[i].w, int(d[0]), d[1]})
+			}
+		}
+	}
+	histMax := 24
+	if *tier == "thorough" {
+		histMax = 96
+	}
+	if len(hist) > histMax {
+		step := len(hist) / histMax
+		var sel []histSample
+		for i := len(hist) - 1; i >= 0 && len(sel) < histMax; i -= step {
+			sel = append(sel, hist[i])
+		}
+		hist = sel
+	}
+	digestOf := func(h histSample, start, evals int, tag string) (uint64, bool) {
+		out := filepath.Join(scratch, fmt.Sprintf("hist-%s-%d-%d.json", tag, h.w, h.idx))
+		every := 1
+		if start == 0 {
+			every = h.idx
+		}
+		cmd := exec.Command(workerBin, "-prop", id, "-sites", sitesPath, "-seed", strconv.FormatUint(seed, 10), "-worker", strconv.Itoa(h.w),
+			"-start", strconv.Itoa(start), "-evals", strconv.Itoa(evals), "-digestevery", strconv.Itoa(every), "-variant", h.lane.Variant, "-tier", *tier, "-out", out, "-maxfail", "1000000")
+		cmd.Env = workerEnv(1)
+		cmd.Run()
+		var r workerReport
+		if b, err := os.ReadFile(out); err == nil && json.Unmarshal(b, &r) == nil {
+			for _, d := range r.Digests {
+				if int(d[0]) == h.idx {
+					return d[1], true
+				}
+			}
+		}
+		return 0, false
+	}
+	histChecked, histMismatch := 0, 0
+	var histViol []histSample
+	{
+		res := make([]uint64, len(hist))
+		oks := make([]bool, len(hist))
+		var wg sync.WaitGroup
+		sem := make(chan struct{}, *workers)
+		for i, h := range hist {
+			wg.Add(1)
+			sem <- struct{}{}
+			go func(i int, h histSample) {
+				defer wg.Done()
+				defer func() { <-sem }()
+				res[i], oks[i] = digestOf(h, h.idx, 1, "fresh")
+			}(i, h)
+		}
+		wg.Wait()
+		for i, h := range hist {
+			if !oks[i] {
+				continue
+			}
+			histChecked++
+			if res[i] != h.digest {
+				// confirm: the warm result must reproduce in a new warm process, and the fresh one again
+				w2, ok1 := digestOf(h, 0, h.idx+1, "warm")
+				f2, ok2 := digestOf(h, h.idx, 1, "fresh2")
+				if ok1 && ok2 && w2 == h.digest && f2 == res[i] {
+					histMismatch++
+					if len(histViol) < 3 {
+						histViol = append(histViol, h)
+					}
+				} else {
+					fmt.Printf("fresh-versus-warm: digests of evaluation %d (worker %d, lane %q) differed once but not reproducibly: harness trouble\n", h.idx, h.w, h.lane.Variant)
+					detMismatch++
+				}
+			}
+		}
+		if histChecked > 0 {
+			fmt.Printf("fresh-versus-warm: %d late evaluations re-executed in fresh processes, %d differ\n", histChecked, histMismatch)
+		}
+	}
+
 	// 5. failures: de-duplicate by class, minimise, confirm in a fresh process, apply known findings
 	known := loadKnown(filepath.Join(verifDir, "known_findings.json"))
 	replayDir := filepath.Join(verifDir, "replays", id)
@@ -667,6 +803,15 @@ func main() {
 	for _, h := range hangs {
 		handle(h, true)
 	}
+	for _, h := range histViol {
+		os.MkdirAll(replayDir, 0o755)
+		final := filepath.Join(replayDir, fmt.Sprintf("history-dependent-%s-w%d-i%d.json", sanitize(h.lane.Variant), h.w, h.idx))
+		msg := fmt.Sprintf("evaluation %d of worker %d (lane %q, seed %d) produces other results after the %d evaluations before it in the same process than as the first evaluation of a fresh process: the code under test carries state from one run to the next", h.idx, h.w, h.lane.Variant, int64(seed), h.idx)
+		b, _ := json.MarshalIndent(map[string]any{"property": id, "oracle": "fresh-vs-warm", "class": "history-dependent", "message": msg,
+			"variant": h.lane.Variant, "seed": int64(seed), "worker": h.w, "index": h.idx, "tier": *tier}, "", " ")
+		os.WriteFile(final, b, 0o644)
+		report(&replayHead{Prop: id, Oracle: "fresh-vs-warm", Class: "history-dependent", Message: msg}, final)
+	}
 	// race reports
 	raceViol := 0
 	for _, raw := range raceFailures {
@@ -706,6 +851,7 @@ func main() {
 			"unsupported_constructs":   sites.Unsupported,
 			"go_statements":            map[string]int{"rewritten": sites.GoStmts, "late_argument_evaluation": sites.GoApprox},
 			"determinism_selftest":     map[string]any{"processes": detRuns, "evaluations_each": detEvals, "gomaxprocs": []int{1, 4, 16}, "mismatches": detMismatch},
+			"fresh_vs_warm":            map[string]any{"late_evaluations_reexecuted_in_fresh_processes": histChecked, "differing": histMismatch},
 			"race_lane":                map[string]any{"evaluations": raceEvals, "runs": raceRuns, "race_violation_classes": raceViol, "reports_not_reproduced_in_fresh_processes": raceUnreproduced, "gomaxprocs": 4},
 			"components": map[string]any{
 				"real": []string{"actionlint (every non-test source of the current /repo tree, import clauses and map ranges rewritten by simgen)", "yaml.v3", "doublestar", "robfig/cron", "go-shellwords", "fatih/color", "regexp", "text/template", "encoding/json"},
